@@ -93,6 +93,8 @@ def run_search(cfg, d, script, crash_after=None, record=None):
         def update(trial_id, metrics, step=0):
             ops.append(("update", int(trial_id), float(metrics["score"]), int(step))); return ou(trial_id, metrics, step=step)
         def end(trial):
+            if trial.status not in ("COMPLETED", "INVALID", "FAILED"):
+                raise RuntimeError("odd: end_trial called with status %s (outside the write protocol Crash.v models; C19's subject)" % trial.status)
             st = {"COMPLETED": "ECompleted", "INVALID": "EInvalid", "FAILED": "EFailed"}[trial.status]
             ops.append(["end", int(trial.trial_id), st, None])
             try:
@@ -317,6 +319,9 @@ def run(ctx):
         seen.add(key)
     verdicts, errors, wall = runcoq.run_cases(ctx.workdir, HEADER, terms, FOOTER, chunk=40)
     failures = []
+    if stats["skipped"] * 2 > n:
+        failures.append(Failure("harness", "C08/skipped", "%d of %d generated searches could not be used (the uncrashed search raised or populate_space failed)" % (stats["skipped"], n),
+                                {"correspondence": "C08", "skipped": stats["skipped"]}))
     for path, rc, err in errors:
         failures.append(Failure("harness", "C08/coqc", "coqc failed on %s: %s" % (path, err[-300:]), {"correspondence": "C08", "file": path}))
     ndiff = 0; shown = 0
